@@ -571,7 +571,7 @@ fn run_suite<S: ShortGroupSignatureScheme>(v: &Value, ps: bool) -> Value {
                 m.e1 = Sh1::zero();
                 m.e2 = Sh1::zero();
             }
-            "random_e2" => {
+            "random_e2" | "forged_missing_entry" => {
                 m.e2 = Sh1::gen(rnd(&mut cx.rng));
             }
             "wrong_secret" => {
@@ -920,10 +920,10 @@ fn run_suite<S: ShortGroupSignatureScheme>(v: &Value, ps: bool) -> Value {
                 }
             }
         }
-        if devk == "reported_missing_entry" {
+        if devk == "reported_missing_entry" || devk == "forged_missing_entry" {
             rep.shift_remove(&target);
         }
-        let mrep = if devk == "reported_missing_entry" { mrep.into_iter().filter(|x| x[0] != json!(idn(&ids, &target))).collect() } else { mrep };
+        let mrep = if devk == "reported_missing_entry" || devk == "forged_missing_entry" { mrep.into_iter().filter(|x| x[0] != json!(idn(&ids, &target))).collect() } else { mrep };
         (Presentation { proofs, challenge: c, disclosed_messages: rep }, json!({"proofs": mproofs, "challenge": hexs(&c), "reported": mrep}))
     };
 
